@@ -1230,6 +1230,57 @@ theorem gc_localSound (n : Nat) (mini maxi : Rat) (w : Nat) (hw1 : 1 ≤ w) (a b
   · intro wa wb s t hn
     exact gc_soundAt mini maxi w hw1 a b wa wb st 0 hst s t hab (by omega)
 
+/-! ### AvoidPattern on the forward strand, as `SoundAt` -/
+
+theorem avoidPattern_passes_iff_forward (q : Seq) (a b : Nat) (s : Seq) :
+    PassesB (.avoidPattern (.dna q) ⟨a, b, 1⟩) s ↔ (Pattern.dna q).findForward s ⟨a, b, 1⟩ = [] := by
+  have hm : (Pattern.dna q).findMatches s ⟨a, b, 1⟩ = some ((Pattern.dna q).findForward s ⟨a, b, 1⟩) := by
+    simp [Pattern.findMatches]
+  simp only [PassesB, C10.avoidPattern_eval, hm, Option.map_some, Option.some.injEq]
+  constructor
+  · rintro ⟨e, he, hsc⟩
+    rw [← he] at hsc
+    exact List.length_eq_zero_iff.1 ((C10.ofInt_neg_nonneg_iff _).1 hsc)
+  · intro h
+    exact ⟨_, rfl, by rw [h]; simp⟩
+
+/-- **C08, first clause, for AvoidPattern** (IUPAC pattern of any size on the forward strand of `[a,b)`) -/
+theorem avoidPattern_soundAt (q : Seq) (hq : q ≠ []) (a b wa wb : Nat) (s t : Seq) (hab : a ≤ b) (hb : b ≤ s.length) :
+    SoundAt (.avoidPattern (.dna q) ⟨a, b, 1⟩) ⟨wa, wb, 0⟩ none s t := by
+  intro hp hag0 hl
+  have hag : AgreeOutside wa wb s t := hag0
+  have hk : 1 ≤ q.length := by cases q with | nil => exact absurd rfl hq | cons _ _ => simp
+  by_cases hw : wa < wb
+  case neg =>
+    have : s = t := List.ext_getElem? (fun i => hag.2 i (by omega))
+    rw [← this]; exact hp
+  rw [avoidPattern_passes_iff_forward] at hp ⊢
+  by_cases hov : max a wa < min b wb
+  · rw [avoidPattern_localized_eq q a b wa wb hk hov] at hl
+    simp only at hl
+    rw [avoidPattern_passes_iff_forward] at hl
+    exact avoidPattern_forward_sound q hq s t a b wa wb hab hb hw hag hp hl (by omega)
+  · -- the window misses the location: nothing the specification reads has changed
+    have hsl : pySlice s (a : Int) (b : Int) = pySlice t (a : Int) (b : Int) := by
+      apply pySlice_congr s t _ _ hag.1 _ (by omega) (by omega)
+      intro i h1 h2
+      apply hag.2
+      omega
+    have := findMatches_unchanged (Pattern.dna q) ⟨a, b, 1⟩ s t (Or.inl rfl) hsl
+    simp only [Pattern.findMatches, beq_self_eq_true, if_true, Option.some.injEq] at this
+    rw [← this]; exact hp
+
+theorem avoidPattern_localSound (n : Nat) (q : Seq) (hq : q ≠ []) (a b : Nat) (hab : a ≤ b) (hb : b ≤ n) :
+    C02.LocalSound n evB lzB iniB (.avoidPattern (.dna q) ⟨a, b, 1⟩) := by
+  apply localSound_of_soundAt
+  · intro x
+    simp only [localized]
+    split
+    · simp
+    · split <;> simp
+  · intro wa wb s t hn
+    exact avoidPattern_soundAt q hq a b wa wb s t hab (by omega)
+
 /-! ### the closed statement for problems made of built-in constraints
 
 The hypotheses of `C02.optimize_preserves_feasible` are met by the built-in model itself: the
@@ -1279,6 +1330,7 @@ inductive Proven (n : Nat) : BSpec Rat → Prop where
       (hst : st ≠ -1) (hb : a + 3 * m ≤ n) : Proven n (.translation tbl .none tr ⟨a, (a + 3 * m : Nat), st⟩)
   | gcWindowed (mini maxi : Rat) (w : Nat) (hw1 : 1 ≤ w) (a b : Nat) (st : Int) (hst : st ≠ -1) (hab : a ≤ b) (hb : b ≤ n) :
       Proven n (.gc mini maxi (some w) ⟨a, b, st⟩)
+  | avoidPattern (q : Seq) (hq : q ≠ []) (a b : Nat) (hab : a ≤ b) (hb : b ≤ n) : Proven n (.avoidPattern (.dna q) ⟨a, b, 1⟩)
   | returnsSelf (b : BSpec Rat) (h : ∀ w, b.localized w none = .same) : Proven n b
 
 theorem proven_localSound (n : Nat) (b : BSpec Rat) (h : Proven n b) : C02.LocalSound n evB lzB iniB b := by
@@ -1288,10 +1340,11 @@ theorem proven_localSound (n : Nat) (b : BSpec Rat) (h : Proven n b) : C02.Local
   | stopCodons tbl tb ht a m st hst hb => exact stopCodons_localSound n tbl tb ht a m st hst hb
   | translation tbl tb ht tr a m st hst hb => exact translation_localSound n tbl tb ht tr a m st hst hb
   | gcWindowed mini maxi w hw1 a b st hst hab hb => exact gc_localSound n mini maxi w hw1 a b st hst hab hb
+  | avoidPattern q hq a b hab hb => exact avoidPattern_localSound n q hq a b hab hb
   | returnsSelf b h => exact same_localSound n b h
 
 /-- **C02, closed for the built-in model**: a problem whose (evaluated) constraints are AvoidChanges /
-    EnforceSequence / AvoidStopCodons / EnforceTranslation / windowed EnforceGCContent regions on the forward strand and any specifications that localize to themselves
+    EnforceSequence / AvoidStopCodons / EnforceTranslation / windowed EnforceGCContent / AvoidPattern (IUPAC) regions on the forward strand and any specifications that localize to themselves
     (EnforceChoice, global GC bounds, edit budgets, …), with *any* objectives, on a well-formed
     mutation space: if all of them pass before `optimize()`, all of them pass after it — for every
     setting and every random tape, whether `optimize()` returns or raises. -/
